@@ -255,6 +255,8 @@ def _run(ctx):
                     ctx.violation('conversion: ' + ('not the ratio of SI magnitudes' if same else 'different dimension without the units error'),
                                   inp, exp, r)
                 batch.append(({'op': 'c11.in_units', 'a': jq(a_si, a_dim, a_arr), 'b': jq([uc['val']], uc['dim'], False)}, r, inp))
+    # construction of array quantities: ArrayQuantity(numbers, units=u) and ArrayQuantity([quantities]) are the numbers times u
+    construction_cases(ctx)
     # random magnitudes on random pairs
     for i in range(ctx.n(3000, 60000)):
         (ka, ua, _), (kb, _, ub) = rng.choice(KINDS), rng.choice(KINDS)
@@ -284,6 +286,38 @@ def scale_of(inp):
     return 0.0
 
 
+def construction_case(ctx, mags, unit, how):
+    from pgradd.Units import eval_qty, ArrayQuantity
+    u = eval_qty(unit)
+    uc = L.canon_value(u)
+    if how == 'units=':
+        r = run_op(lambda: ArrayQuantity(list(mags), units=unit))
+    elif how == 'bundle':
+        r = run_op(lambda: ArrayQuantity([x * u if x != 0 or i % 2 else 0 for i, x in enumerate(mags)]))
+    else:
+        r = run_op(lambda: ArrayQuantity([x * u for x in mags], units=unit))
+    # `units=` names the dimension only: the numbers given are SI magnitudes (the class stores SI values, see its docstring);
+    # quantities in the contents carry their own SI magnitude
+    exp = {'arr': [x * (1.0 if how == 'units=' else uc['val']) for x in mags], 'dim': uc['dim']}
+    inp = {'op': 'construct', 'how': how, 'mags': list(mags), 'units': unit}
+    ctx.case(json.dumps(['construct', how, list(mags), unit]), None)
+    ctx.count('op_construct_' + how)
+    if how == 'bundle' and all(x == 0 for x in mags):
+        return           # nothing in the contents carries units: a TypeError is the documented outcome
+    if not agrees(r, exp):
+        ctx.violation('an array quantity built from numbers and units is not the numbers times the unit', inp, exp, r)
+
+
+def construction_cases(ctx):
+    for (k, ua, ub) in KINDS:
+        if ua is None:
+            continue
+        for mags in ([2.0, 5.0], [0.0, 0.0], [0.0, 3.0], [-1.5, 0.0, 2.0], [4.0]):
+            for how in ('units=', 'bundle', 'both'):
+                for unit in (ua, ub):
+                    construction_case(ctx, mags, unit, how)
+
+
 def same_outcome(impl, rep, scale=0.0):
     if 'inexact' in rep:
         if 'err' in impl or not L.dim_matches(impl.get('dim', []), rep['dim']):
@@ -307,6 +341,9 @@ def _replay(ctx, rec, batch):
         if not any(o['dim']):
             return val
         return val * Quantity(1.0, FundamentalUnits(exps, np.zeros(len(prim), dtype=bool)))
+    if inp['op'] == 'construct':
+        construction_case(ctx, inp['mags'], inp['units'], inp['how'])
+        return len(ctx.violations) == before
     a = inp['a']
     A = (build(a), a['si'], a['dim'], a['array'])
     if inp['op'] in ('neg', 'abs'):
